@@ -138,6 +138,7 @@ def _init_worker() -> None:
     import signal
 
     signal.signal(signal.SIGALRM, lambda signum, frame: None)
+    signal.signal(signal.SIGPROF, lambda signum, frame: None)
 
 
 def pool() -> mp.pool.Pool:
